@@ -94,6 +94,7 @@ class Exporter:
         self._busy = set()
         self.track = None       # statement node to wrap in a "track" record
         self.track_fields = {}
+        self.skip_opaque_symbols = False
         self.track_range = None  # (schedule node, first, last+1): statements to track
 
     # ------------------------------------------------------------ expressions
@@ -265,9 +266,27 @@ class Exporter:
                 reads.append(e)
         return {"k": "isub", "name": name, "reads": reads, "writes": writes}
 
+    _PSYDATA_CALL = None
+
     def codeblock(self, node):
+        import re
         from fparser.two import Fortran2003 as F
         asts = node.get_ast_nodes
+        if len(asts) == 1 and isinstance(asts[0], F.Call_Stmt):
+            # lowered PSyData hooks: CALL <var> % <Method>(args)
+            m = re.match(r"^CALL\s+(\w+)\s*%\s*(\w+)\s*(\((.*)\))?\s*$", str(asts[0]), re.S)
+            if m:
+                var, meth = m.group(1).lower(), m.group(2).lower()
+                if meth == "prestart":
+                    names = re.findall(r'"([^"]*)"', m.group(4) or "")
+                    return {"k": "event", "what": "start", "name": var,
+                            "module": names[0] if names else "",
+                            "region": names[1] if len(names) > 1 else ""}
+                if meth == "postend":
+                    return {"k": "event", "what": "end", "name": var}
+                if meth in ("predeclarevariable", "providevariable", "preenddeclaration",
+                            "preend", "poststart"):
+                    return {"k": "nop"}
         if len(asts) == 1:
             a = asts[0]
             if isinstance(a, F.Exit_Stmt) and a.items[1] is None:
@@ -389,6 +408,9 @@ class Exporter:
         for sym in syms:
             if not isinstance(sym, S.DataSymbol):
                 continue
+            if self.skip_opaque_symbols and not isinstance(
+                    sym.datatype, (S.ScalarType, S.ArrayType)):
+                continue      # e.g. PSyData objects; a reference to one stays undeclared
             if sym.is_import or sym.is_unresolved:
                 raise Unsupported("imported/unresolved symbol " + sym.name)
             d = {"name": sym.name.lower(), "ty": _ty(sym.datatype), "dims": []}
